@@ -101,15 +101,51 @@ let do_shape hex shape =
 let bi b = if b then 1 else 0
 let ob = function Some b -> bi b | None -> 9     (* 9 = out of fuel *)
 
+(* the width-class answers of the model for code point c (same text as the probe's wclass_of) *)
+let wclass_of c =
+  let b = enc c @ [n_of_int 65] in
+  let zc = zi c in
+  let (ph, _) = ren_placeholder b in
+  Printf.sprintf "%d %d %d %d %d %d %d %d %s" (bi (uc_isdw zc)) (bi (uc_iszw zc)) (ob (tfind zc bchars))
+    (iz (uc_wid b)) (bi (uc_isbell b)) (bi (uc_iscomb b)) (iz (ren_cwid b (zi 0))) (iz (ren_cwid b (zi 5)))
+    (match ph with Some d -> hex_of_bytes d | None -> "x")
+
 let do_wsweep lo hi =
-  for c = lo to hi do
-    let b = enc c @ [n_of_int 65] in
-    let zc = zi c in
-    let (ph, _) = ren_placeholder b in
-    pr "%d %d %d %d %d %d %d %d %d %s\n" c (bi (uc_isdw zc)) (bi (uc_iszw zc)) (ob (tfind zc bchars))
-      (iz (uc_wid b)) (bi (uc_isbell b)) (bi (uc_iscomb b)) (iz (ren_cwid b (zi 0))) (iz (ren_cwid b (zi 5)))
-      (match ph with Some d -> hex_of_bytes d | None -> "x")
-  done
+  for c = lo to hi do pr "%d %s\n" c (wclass_of c) done
+
+(* wclass lo hi: the same function printed as maximal runs.  The model is evaluated at both ends and
+   in the middle of every piece between two consecutive break points (every bound a / b+1 of the
+   extracted range tables, the placeholder code points, the thresholds, every code point up to
+   0x100, the encoding-length boundaries); inside a piece no table bound lies, so membership in every
+   table is constant there (C17_width_class: the model's answers ARE table membership for every
+   code point).  A piece whose three evaluations differ is evaluated code point by code point. *)
+let do_wclass lo hi =
+  if lo > hi then pr "-\n" else begin
+    let bp = Hashtbl.create 4096 in
+    let add x = if x > lo && x <= hi then Hashtbl.replace bp x () in
+    List.iter (fun tab -> List.iter (fun (a, b) -> add (iz a); add (iz b + 1)) tab) [dwchars; zwchars; bchars; acomb_ranges];
+    List.iter (fun ((src, _), _) -> let c = int_of_n (uc_code src) in add c; add (c + 1)) placeholders;
+    add (iz dw_min); add (iz zw_min);
+    for c = 0 to 0x100 do add c done;
+    List.iter add [0x800; 0x10000; 0xd800; 0xe000; 0x110000];
+    let starts = lo :: List.sort compare (Hashtbl.fold (fun k () l -> k :: l) bp []) in
+    let runs = ref [] in                    (* (start, end, class), last first *)
+    let push s e v =
+      match !runs with
+      | (s0, _, v0) :: r when v0 = v -> runs := (s0, e, v0) :: r
+      | _ -> runs := (s, e, v) :: !runs in
+    let rec pieces = function
+      | [] -> ()
+      | s :: rest ->
+        let e = (match rest with [] -> hi | s' :: _ -> s' - 1) in
+        let v = wclass_of s in
+        if e = s || (wclass_of e = v && wclass_of ((s + e) / 2) = v) then push s e v
+        else for c = s to e do push c c (wclass_of c) done;
+        pieces rest in
+    pieces starts;
+    List.iter (fun (s, e, v) -> pr "%d-%d:%s;" s e v) (List.rev !runs);
+    pr "\n"
+  end
 
 let cs_sets () =
   let extra = [0; 0x41; 0x20; 0x64b; 0x670; 0x600; 0x6f0; 0xfe8e; 0xfeff; 0x200e] in
@@ -150,6 +186,7 @@ let () =
      | ["ren"; h; o; td; lim; cf; tr] -> do_ren h (ios o) (ios td) (ios lim) (ios cf) tr
      | ["shape"; h; x] -> do_shape h (ios x)
      | ["wsweep"; lo; hi] -> do_wsweep (ios lo) (ios hi)
+     | ["wclass"; lo; hi] -> do_wclass (ios lo) (ios hi)
      | ["cssweep"] -> do_cssweep ()
      | ["fasweep"] -> do_fasweep ()
      | _ -> pr "?\n");
